@@ -450,7 +450,9 @@ def run_standard(P, tier, seed):
                                 {"correspondence": pid, "errors": errors}, found_input=False)
                 if failing:
                     byid = {c["id"]: c for c in coq_cases}
-                    fc = [byid[i] for i in failing[:5]]
+                    # the failing cases whose search output is evaluated: highest show_priority first, then by id
+                    order = sorted(failing, key=lambda i: (-int(byid[i].get("show_priority", 0)), i))
+                    fc = [byid[i] for i in order[:P.get("show_limit", 5)]]
                     shows = []
                     st = [c["show"] for c in fc if c.get("show")]
                     if st:
